@@ -7,7 +7,7 @@
     keep = true. *)
 From Prtpy Require Import Base.Prelude Model.Binner Model.Objectives Model.Greedy Model.Packing
   Model.Covering Model.KK Model.DP Spec.Partition Proofs.BaseLemmas Proofs.BinnerLemmas
-  Proofs.ObjectivesProofs Proofs.RatioProofs Proofs.DPProofs.
+  Model.CBLDM Proofs.ObjectivesProofs Proofs.RatioProofs Proofs.DPProofs Proofs.CBLDMProofs.
 From Coq Require Import Sorting.Sorted ZifyBool.
 
 (** ================================================================== *)
@@ -309,3 +309,724 @@ Proof.
   intros o k vs v v' [(s & Hs & Hv) Hmin] [(s' & Hs' & Hv') Hmin'].
   pose proof (Hmin s' Hs') as H1. pose proof (Hmin' s Hs) as H2. lia.
 Qed.
+
+(** ================================================================== *)
+(** * PART 2: scaling by a positive constant                            *)
+(** ================================================================== *)
+
+Definition sbin (c : Z) (bn : bin Z) : bin Z := (c * fst bn, map (Z.mul c) (snd bn)).
+Definition scale_bins (c : Z) (b : bins Z) : bins Z := map (sbin c) b.
+
+(** [scale_bins] is literally the map announced in the property statement *)
+Lemma scale_bins_eq c b : scale_bins c b = map (fun bn => (c * fst bn, map (Z.mul c) (snd bn))) b.
+Proof. reflexivity. Qed.
+
+Lemma sbin_fst c bn : fst (sbin c bn) = c * fst bn.
+Proof. reflexivity. Qed.
+
+Lemma sbin_empty c : sbin c (@empty_bin Z) = empty_bin.
+Proof. unfold sbin, empty_bin. cbn [fst snd map]. rewrite Z.mul_0_r. reflexivity. Qed.
+
+Lemma add_to_bin_scale c x bn : add_to_bin id true (c * x) (sbin c bn) = sbin c (add_to_bin id true x bn).
+Proof.
+  unfold add_to_bin, sbin, id. cbn [fst snd]. rewrite map_app. cbn [map]. f_equal. lia.
+Qed.
+
+Lemma scale_bins_new c k : scale_bins c (new_bins k) = new_bins k.
+Proof.
+  unfold scale_bins, new_bins. induction k as [|k IH]; cbn [repeat map]; [reflexivity|].
+  rewrite IH, sbin_empty. reflexivity.
+Qed.
+
+Lemma scale_bins_sums c b : sums (scale_bins c b) = map (Z.mul c) (sums b).
+Proof. unfold sums, scale_bins. rewrite !map_map. reflexivity. Qed.
+
+Lemma scale_bins_length c b : length (scale_bins c b) = length b.
+Proof. apply map_length. Qed.
+
+Lemma scale_bins_app c b1 b2 : scale_bins c (b1 ++ b2) = scale_bins c b1 ++ scale_bins c b2.
+Proof. apply map_app. Qed.
+
+Lemma add_item_scale c b x i :
+  add_item id true (scale_bins c b) (c * x) i = scale_bins c (add_item id true b x i).
+Proof.
+  unfold add_item, scale_bins. symmetry. apply map_update.
+  intros bn. symmetry. apply add_to_bin_scale.
+Qed.
+
+(** the sums of the scaled result are the scaled sums: the form used by the property checker *)
+Lemma scale_bins_wf c b : wf id b -> wf id (scale_bins c b).
+Proof.
+  unfold wf, scale_bins. intros H. rewrite Forall_map. eapply Forall_impl; [|exact H].
+  intros bn Hb. unfold wf_bin, sbin in *. cbn [fst snd]. rewrite Hb.
+  rewrite !map_id. symmetry. apply zsum_scale.
+Qed.
+
+Lemma scale_bins_contents c b : contents (scale_bins c b) = map (Z.mul c) (contents b).
+Proof.
+  unfold contents, lists, scale_bins. rewrite map_map. cbn [sbin snd].
+  rewrite concat_map, map_map. reflexivity.
+Qed.
+
+(** ---- argmin ---- *)
+Lemma argmin_aux_scale c l : 0 < c -> forall i bi bv,
+  argmin_aux (map (Z.mul c) l) i bi (c * bv) = argmin_aux l i bi bv.
+Proof.
+  intros Hc. induction l as [|x t IH]; intros i bi bv; cbn [map argmin_aux]; [reflexivity|].
+  rewrite (ltb_scale c x bv Hc). destruct (x <? bv); apply IH.
+Qed.
+
+Lemma argmin_scale c l : 0 < c -> argmin (map (Z.mul c) l) = argmin l.
+Proof. intros Hc. destruct l as [|x t]; cbn [map argmin]; [reflexivity|]. apply argmin_aux_scale; exact Hc. Qed.
+
+(** ---- greedy ---- *)
+Lemma greedy_step_scale c b x : 0 < c ->
+  greedy_step id true (scale_bins c b) (c * x) = scale_bins c (greedy_step id true b x).
+Proof.
+  intros Hc. unfold greedy_step. rewrite scale_bins_sums, (argmin_scale c _ Hc). apply add_item_scale.
+Qed.
+
+Lemma greedy_fold_scale c l : 0 < c -> forall b,
+  fold_left (greedy_step id true) (map (Z.mul c) l) (scale_bins c b) =
+  scale_bins c (fold_left (greedy_step id true) l b).
+Proof.
+  intros Hc. induction l as [|x t IH]; intros b; cbn [map fold_left]; [reflexivity|].
+  rewrite (greedy_step_scale c b x Hc). apply IH.
+Qed.
+
+Theorem greedy_scale : forall c k vs, 0 < c ->
+  greedy id true k (map (Z.mul c) vs) = scale_bins c (greedy id true k vs).
+Proof.
+  intros c k vs Hc. unfold greedy. rewrite (sort_desc_scale c vs Hc).
+  rewrite <- (greedy_fold_scale c _ Hc), scale_bins_new. reflexivity.
+Qed.
+
+(** ---- roundrobin ---- *)
+Lemma rr_loop_scale c k l : forall ibin b,
+  rr_loop id true k (map (Z.mul c) l) ibin (scale_bins c b) = scale_bins c (rr_loop id true k l ibin b).
+Proof.
+  induction l as [|x t IH]; intros ibin b; cbn [map rr_loop]; [reflexivity|].
+  rewrite add_item_scale. apply IH.
+Qed.
+
+Theorem roundrobin_scale : forall c k vs, 0 < c ->
+  roundrobin id true k (map (Z.mul c) vs) = scale_bins c (roundrobin id true k vs).
+Proof.
+  intros c k vs Hc. unfold roundrobin. rewrite (sort_desc_scale c vs Hc).
+  rewrite <- rr_loop_scale, scale_bins_new. reflexivity.
+Qed.
+
+(** ---- first fit ---- *)
+Lemma ff_place_scale c C x b : 0 < c ->
+  ff_place id true (c * C) (c * x) (scale_bins c b) = scale_bins c (ff_place id true C x b).
+Proof.
+  intros Hc. induction b as [|bn t IH]; cbn [scale_bins map ff_place].
+  - rewrite <- sbin_empty with (c := c) at 1. rewrite add_to_bin_scale. reflexivity.
+  - rewrite sbin_fst. change (id (c * x)) with (c * x). change (id x) with x.
+    rewrite <- Z.mul_add_distr_l, (leb_scale c _ C Hc).
+    destruct (fst bn + x <=? C); cbn [map].
+    + rewrite add_to_bin_scale. reflexivity.
+    + f_equal. exact IH.
+Qed.
+
+Lemma ff_loop_scale c C l : 0 < c -> forall b,
+  ff_loop id true (c * C) (map (Z.mul c) l) (scale_bins c b) = rmap (scale_bins c) (ff_loop id true C l b).
+Proof.
+  intros Hc. induction l as [|x t IH]; intros b; cbn [map ff_loop]; [reflexivity|].
+  change (id (c * x)) with (c * x). change (id x) with x.
+  rewrite (gtb_scale c x C Hc). destruct (x >? C); [reflexivity|].
+  rewrite (ff_place_scale c C x b Hc). apply IH.
+Qed.
+
+Theorem first_fit_scale : forall c C vs, 0 < c ->
+  first_fit id true (c * C) (map (Z.mul c) vs) = rmap (scale_bins c) (first_fit id true C vs).
+Proof.
+  intros c C vs Hc. unfold first_fit. rewrite <- (ff_loop_scale c C vs Hc), scale_bins_new. reflexivity.
+Qed.
+
+Theorem first_fit_decreasing_scale : forall c C vs, 0 < c ->
+  first_fit_decreasing id true (c * C) (map (Z.mul c) vs) =
+  rmap (scale_bins c) (first_fit_decreasing id true C vs).
+Proof.
+  intros c C vs Hc. unfold first_fit_decreasing. rewrite (sort_desc_scale c vs Hc).
+  apply first_fit_scale; exact Hc.
+Qed.
+
+(** ---- best fit ----
+    The running best is (None, -1) until a bin fits, then (Some i, new_sum).  The initial -1 is not
+    scaled, but for integers [-1 < ns <-> -1 < c * ns] when c > 0, so no sign hypothesis is needed. *)
+Definition best_rel (c : Z) (best best' : option nat * Z) : Prop :=
+  fst best' = fst best /\ (snd best' = c * snd best \/ (snd best = -1 /\ snd best' = -1)).
+
+Lemma bf_cmp_scale c s s' ns : 0 < c -> (s' = c * s \/ (s = -1 /\ s' = -1)) ->
+  (s' <? c * ns) = (s <? ns).
+Proof.
+  intros Hc [->|[-> ->]]; [apply ltb_scale; exact Hc|].
+  destruct (Z.ltb_spec (-1) ns) as [H|H]; destruct (Z.ltb_spec (-1) (c * ns)) as [H'|H'];
+    try reflexivity; nia.
+Qed.
+
+Lemma bf_scan_scale c C v b : 0 < c -> forall i best best', best_rel c best best' ->
+  best_rel c (bf_scan C v b i best) (bf_scan (c * C) (c * v) (scale_bins c b) i best').
+Proof.
+  intros Hc. induction b as [|bn t IH]; intros i best best' [H1 H2]; cbn [scale_bins map bf_scan].
+  - split; assumption.
+  - apply IH. rewrite sbin_fst, <- Z.mul_add_distr_l, (leb_scale c _ C Hc).
+    rewrite (bf_cmp_scale c (snd best) (snd best') (fst bn + v) Hc H2).
+    destruct ((fst bn + v <=? C) && (snd best <? fst bn + v)).
+    + split; [reflexivity|left; reflexivity].
+    + split; assumption.
+Qed.
+
+Lemma bf_place_scale c C x b : 0 < c ->
+  bf_place id true (c * C) (c * x) (scale_bins c b) = scale_bins c (bf_place id true C x b).
+Proof.
+  intros Hc. unfold bf_place. change (id (c * x)) with (c * x). change (id x) with x.
+  assert (H0 : best_rel c (None, -1) (None, -1)) by (split; [reflexivity|right; split; reflexivity]).
+  destruct (bf_scan_scale c C x b Hc O (None, -1) (None, -1) H0) as [H1 _].
+  rewrite H1. destruct (fst (bf_scan C x b 0 (None, -1))) as [i|].
+  - apply add_item_scale.
+  - rewrite scale_bins_app. cbn [scale_bins map].
+    rewrite <- add_to_bin_scale, sbin_empty. reflexivity.
+Qed.
+
+Lemma bf_loop_scale c C l : 0 < c -> forall b,
+  bf_loop id true (c * C) (map (Z.mul c) l) (scale_bins c b) = rmap (scale_bins c) (bf_loop id true C l b).
+Proof.
+  intros Hc. induction l as [|x t IH]; intros b; cbn [map bf_loop]; [reflexivity|].
+  change (id (c * x)) with (c * x). change (id x) with x.
+  rewrite (gtb_scale c x C Hc). destruct (x >? C); [reflexivity|].
+  rewrite (bf_place_scale c C x b Hc). apply IH.
+Qed.
+
+Theorem best_fit_scale : forall c C vs, 0 < c ->
+  best_fit id true (c * C) (map (Z.mul c) vs) = rmap (scale_bins c) (best_fit id true C vs).
+Proof.
+  intros c C vs Hc. unfold best_fit. rewrite <- (bf_loop_scale c C vs Hc), scale_bins_new. reflexivity.
+Qed.
+
+Theorem best_fit_decreasing_scale : forall c C vs, 0 < c ->
+  best_fit_decreasing id true (c * C) (map (Z.mul c) vs) =
+  rmap (scale_bins c) (best_fit_decreasing id true C vs).
+Proof.
+  intros c C vs Hc. unfold best_fit_decreasing. rewrite (sort_desc_scale c vs Hc).
+  apply best_fit_scale; exact Hc.
+Qed.
+
+(** ---- Karmarkar-Karp ---- *)
+Definition sentry (c : Z) (e : Z * bins Z) : Z * bins Z := (c * fst e, scale_bins c (snd e)).
+Definition scale_heap (c : Z) (h : list (Z * bins Z)) : list (Z * bins Z) := map (sentry c) h.
+
+Lemma sentry_fst c e : fst (sentry c e) = c * fst e.
+Proof. reflexivity. Qed.
+
+Lemma heap_insert_scale c e h : 0 < c ->
+  heap_insert (sentry c e) (scale_heap c h) = scale_heap c (heap_insert e h).
+Proof.
+  intros Hc. induction h as [|y t IH]; cbn [scale_heap map heap_insert]; [reflexivity|].
+  rewrite !sentry_fst, (ltb_scale c (fst e) (fst y) Hc).
+  destruct (fst e <? fst y); cbn [map]; [reflexivity|]. f_equal. exact IH.
+Qed.
+
+Lemma sort_bins_scale c b : 0 < c -> sort_bins (scale_bins c b) = scale_bins c (sort_bins b).
+Proof.
+  intros Hc. unfold sort_bins, scale_bins. symmetry. apply sort_asc_map_mono.
+  intros x y. rewrite !sbin_fst. apply leb_scale; exact Hc.
+Qed.
+
+Lemma hd_scale c l : hd 0 (map (Z.mul c) l) = c * hd 0 l.
+Proof. destruct l as [|x t]; cbn [map hd]; lia. Qed.
+
+Lemma last_scale c l : last (map (Z.mul c) l) 0 = c * last l 0.
+Proof.
+  induction l as [|x t IH]; [cbn [map last]; lia|].
+  destruct t as [|y t']; [reflexivity|].
+  change (last (map (Z.mul c) (x :: y :: t')) 0) with (last (map (Z.mul c) (y :: t')) 0).
+  change (last (x :: y :: t') 0) with (last (y :: t') 0). exact IH.
+Qed.
+
+Lemma bins_diff_scale c b : bins_diff (scale_bins c b) = c * bins_diff b.
+Proof. unfold bins_diff. rewrite scale_bins_sums, last_scale, hd_scale. lia. Qed.
+
+Lemma heap_push_scale c h b : 0 < c ->
+  heap_push (scale_heap c h) (scale_bins c b) = scale_heap c (heap_push h b).
+Proof.
+  intros Hc. unfold heap_push. rewrite (sort_bins_scale c b Hc), bins_diff_scale, <- Z.mul_opp_r.
+  apply (heap_insert_scale c (- bins_diff (sort_bins b), sort_bins b) h Hc).
+Qed.
+
+Lemma singleton_bins_scale c k x :
+  singleton_bins id true k (c * x) = scale_bins c (singleton_bins id true k x).
+Proof. unfold singleton_bins. rewrite <- add_item_scale, scale_bins_new. reflexivity. Qed.
+
+Lemma initial_fold_scale c k l : 0 < c -> forall h,
+  fold_left (fun h x => heap_push h (singleton_bins id true k x)) (map (Z.mul c) l) (scale_heap c h) =
+  scale_heap c (fold_left (fun h x => heap_push h (singleton_bins id true k x)) l h).
+Proof.
+  intros Hc. induction l as [|x t IH]; intros h; cbn [map fold_left]; [reflexivity|].
+  rewrite singleton_bins_scale, (heap_push_scale c h _ Hc). apply IH.
+Qed.
+
+Lemma initial_heap_scale c k vs : 0 < c ->
+  initial_heap id true k (map (Z.mul c) vs) = scale_heap c (initial_heap id true k vs).
+Proof.
+  intros Hc. unfold initial_heap. rewrite (sort_desc_scale c vs Hc).
+  apply (initial_fold_scale c k _ Hc []).
+Qed.
+
+Lemma combine_bin_scale c (x y : bin Z) : combine_bin (sbin c x) (sbin c y) = sbin c (combine_bin x y).
+Proof. unfold combine_bin, sbin. cbn [fst snd]. rewrite map_app. f_equal. lia. Qed.
+
+Lemma zip_combine_scale c b1 : forall b2,
+  zip_combine (scale_bins c b1) (scale_bins c b2) = scale_bins c (zip_combine b1 b2).
+Proof.
+  induction b1 as [|x t1 IH]; intros [|y t2]; cbn [scale_bins map zip_combine]; try reflexivity.
+  rewrite combine_bin_scale. f_equal. apply IH.
+Qed.
+
+Lemma kk_combine_scale c b1 b2 :
+  kk_combine (scale_bins c b1) (scale_bins c b2) = scale_bins c (kk_combine b1 b2).
+Proof.
+  unfold kk_combine. rewrite <- zip_combine_scale. f_equal. unfold scale_bins. symmetry. apply map_rev.
+Qed.
+
+Lemma kk_loop_scale c fuel : 0 < c -> forall h,
+  kk_loop fuel (scale_heap c h) = scale_heap c (kk_loop fuel h).
+Proof.
+  intros Hc. induction fuel as [|f IH]; intros h; [reflexivity|].
+  destruct h as [|[d1 b1] [|[d2 b2] rest]]; try reflexivity.
+  cbn [scale_heap map kk_loop sentry fst snd].
+  rewrite kk_combine_scale. fold (scale_heap c rest).
+  rewrite (heap_push_scale c rest _ Hc). apply IH.
+Qed.
+
+Theorem kk_scale : forall c k vs, 0 < c ->
+  kk id true k (map (Z.mul c) vs) = rmap (scale_bins c) (kk id true k vs).
+Proof.
+  intros c k vs Hc. unfold kk.
+  rewrite map_length, (initial_heap_scale c k vs Hc), (kk_loop_scale c _ Hc).
+  destruct (kk_loop (length vs - 1) (initial_heap id true k vs)) as [|e rest]; reflexivity.
+Qed.
+
+(** ---- covering: decreasing ---- *)
+Definition sstate (c : Z) (st : bins Z * bin Z) : bins Z * bin Z := (scale_bins c (fst st), sbin c (snd st)).
+
+Lemma sstate_init c : sstate c ([], empty_bin) = ([], empty_bin).
+Proof. unfold sstate. cbn [fst snd scale_bins map]. rewrite sbin_empty. reflexivity. Qed.
+
+Lemma sstate_fst c st : fst (sstate c st) = scale_bins c (fst st).
+Proof. reflexivity. Qed.
+
+Lemma sstate_snd c st : snd (sstate c st) = sbin c (snd st).
+Proof. reflexivity. Qed.
+
+Lemma sstate_close c (b : bins Z) (cur : bin Z) :
+  (scale_bins c b ++ [sbin c cur], @empty_bin Z) = sstate c (b ++ [cur], empty_bin).
+Proof.
+  unfold sstate. cbn [fst snd]. rewrite scale_bins_app, sbin_empty. reflexivity.
+Qed.
+
+Lemma sstate_keep c (b : bins Z) (cur : bin Z) : (scale_bins c b, sbin c cur) = sstate c (b, cur).
+Proof. reflexivity. Qed.
+
+Lemma cover_add_scale c C st x : 0 < c ->
+  cover_add id true (c * C) (sstate c st) (c * x) = sstate c (cover_add id true C st x).
+Proof.
+  intros Hc. unfold cover_add. rewrite sstate_fst, sstate_snd, add_to_bin_scale, sbin_fst.
+  rewrite (geb_scale c _ C Hc).
+  destruct (fst (add_to_bin id true x (snd st)) >=? C); [apply sstate_close|apply sstate_keep].
+Qed.
+
+Lemma dec_sub_scale c C l : 0 < c -> forall st,
+  dec_sub id true (c * C) (sstate c st) (map (Z.mul c) l) = sstate c (dec_sub id true C st l).
+Proof.
+  intros Hc. unfold dec_sub. induction l as [|x t IH]; intros st; cbn [map fold_left]; [reflexivity|].
+  rewrite (cover_add_scale c C st x Hc). apply IH.
+Qed.
+
+Theorem cover_decreasing_scale : forall c C vs, 0 < c ->
+  cover_decreasing id true (c * C) (map (Z.mul c) vs) = scale_bins c (cover_decreasing id true C vs).
+Proof.
+  intros c C vs Hc. unfold cover_decreasing. rewrite (sort_desc_scale c vs Hc).
+  rewrite <- sstate_fst, <- (dec_sub_scale c C _ Hc), sstate_init. reflexivity.
+Qed.
+
+(** ---- covering: twothirds ---- *)
+Lemma unsnoc_map {T U} (g : T -> U) (l : list T) :
+  unsnoc (map g l) = match unsnoc l with None => None | Some (r, y) => Some (map g r, g y) end.
+Proof.
+  unfold unsnoc. rewrite <- map_rev. destruct (rev l) as [|y r]; cbn [map]; [reflexivity|].
+  rewrite map_rev. reflexivity.
+Qed.
+
+Lemma tt_loop_scale c C : 0 < c -> forall fuel st fresh rem,
+  tt_loop id true fuel (c * C) (sstate c st) fresh (map (Z.mul c) rem) =
+  sstate c (tt_loop id true fuel C st fresh rem).
+Proof.
+  intros Hc. induction fuel as [|f IH]; intros st fresh rem; [reflexivity|].
+  destruct rem as [|x t]; [reflexivity|]. destruct fresh.
+  - cbn [tt_loop map]. rewrite sstate_fst, sstate_snd, add_to_bin_scale, sbin_fst, (geb_scale c _ C Hc).
+    destruct (fst (add_to_bin id true x (snd st)) >=? C).
+    + rewrite sstate_close. apply IH.
+    + rewrite sstate_keep. apply IH.
+  - cbn [tt_loop]. rewrite (unsnoc_map (Z.mul c) (x :: t)). cbn [map].
+    destruct (unsnoc (x :: t)) as [[r y]|]; [|reflexivity].
+    rewrite sstate_fst, sstate_snd, add_to_bin_scale, sbin_fst, (geb_scale c _ C Hc).
+    destruct (fst (add_to_bin id true y (snd st)) >=? C).
+    + rewrite sstate_close. apply IH.
+    + rewrite sstate_keep. apply IH.
+Qed.
+
+Theorem cover_twothirds_scale : forall c C vs, 0 < c ->
+  cover_twothirds id true (c * C) (map (Z.mul c) vs) = scale_bins c (cover_twothirds id true C vs).
+Proof.
+  intros c C vs Hc. unfold cover_twothirds. rewrite map_length, (sort_desc_scale c vs Hc).
+  rewrite <- sstate_fst, <- (tt_loop_scale c C Hc), sstate_init. reflexivity.
+Qed.
+
+(** ---- covering: threequarters ---- *)
+Lemma is_big_scale c C x : 0 < c -> is_big id (c * C) (c * x) = is_big id C x.
+Proof.
+  intros Hc. unfold is_big, id. replace (2 * (c * x)) with (c * (2 * x)) by lia.
+  apply leb_scale; exact Hc.
+Qed.
+
+Lemma is_medium_scale c C x : 0 < c -> is_medium id (c * C) (c * x) = is_medium id C x.
+Proof.
+  intros Hc. unfold is_medium, id. replace (2 * (c * x)) with (c * (2 * x)) by lia.
+  replace (3 * (c * x)) with (c * (3 * x)) by lia.
+  rewrite (leb_scale c C (3 * x) Hc), (ltb_scale c (2 * x) C Hc). reflexivity.
+Qed.
+
+Lemma is_small_scale c C x : 0 < c -> is_small id (c * C) (c * x) = is_small id C x.
+Proof.
+  intros Hc. unfold is_small, id. replace (3 * (c * x)) with (c * (3 * x)) by lia.
+  apply ltb_scale; exact Hc.
+Qed.
+
+Lemma filter_map_commute {T U} (g : T -> U) (p : T -> bool) (p' : U -> bool) l :
+  (forall x, p' (g x) = p x) -> filter p' (map g l) = map g (filter p l).
+Proof.
+  intros H. induction l as [|x t IH]; cbn [map filter]; [reflexivity|].
+  rewrite H. destruct (p x); cbn [map]; rewrite IH; reflexivity.
+Qed.
+
+Lemma fill_small_scale c C : 0 < c -> forall fuel cur small,
+  fill_small id true fuel (c * C) (sbin c cur) (map (Z.mul c) small) =
+  (sbin c (fst (fill_small id true fuel C cur small)),
+   map (Z.mul c) (snd (fill_small id true fuel C cur small))).
+Proof.
+  intros Hc. induction fuel as [|f IH]; intros cur small; [reflexivity|].
+  cbn [fill_small]. rewrite sbin_fst, (ltb_scale c _ C Hc).
+  destruct (fst cur <? C); [|reflexivity].
+  rewrite unsnoc_map. destruct (unsnoc small) as [[r y]|]; [|reflexivity].
+  rewrite add_to_bin_scale. apply IH.
+Qed.
+
+Lemma fold_add_scale c l : forall cur,
+  fold_left (fun c0 x => add_to_bin id true x c0) (map (Z.mul c) l) (sbin c cur) =
+  sbin c (fold_left (fun c0 x => add_to_bin id true x c0) l cur).
+Proof.
+  induction l as [|x t IH]; intros cur; cbn [map fold_left]; [reflexivity|].
+  rewrite add_to_bin_scale. apply IH.
+Qed.
+
+Definition is_nil' {T} (l : list T) : bool := match l with [] => true | _ :: _ => false end.
+
+Lemma is_nil'_map {T U} (g : T -> U) l : is_nil' (map g l) = is_nil' l.
+Proof. destruct l; reflexivity. Qed.
+
+(** the choice made at the start of an iteration of the main loop *)
+Definition tq_pick' (cur : bin Z) (big medium : list Z) : bin Z * list Z * list Z :=
+  if zsum (map id (firstn 1 big)) >=? zsum (map id (firstn 2 medium))
+  then (fold_left (fun c0 x => add_to_bin id true x c0) (firstn 1 big) cur, skipn 1 big, medium)
+  else (fold_left (fun c0 x => add_to_bin id true x c0) (firstn 2 medium) cur, big, skipn 2 medium).
+
+Lemma tq_loop_unfold' f C (st : bins Z * bin Z) big medium small :
+  tq_loop id true (S f) C st big medium small =
+  if is_nil' small then dec_sub id true C (dec_sub id true C st big) medium
+  else if is_nil' big && is_nil' medium then dec_sub id true C st small
+  else
+    let '(cur0, big', medium') := tq_pick' (snd st) big medium in
+    let '(cur1, small') := fill_small id true (length small) C cur0 small in
+    if fst cur1 >=? C then tq_loop id true f C (fst st ++ [cur1], empty_bin) big' medium' small'
+    else tq_loop id true f C (fst st, cur1) big' medium' small'.
+Proof. destruct small, big, medium; reflexivity. Qed.
+
+Lemma tq_pick'_scale c cur big medium : 0 < c ->
+  tq_pick' (sbin c cur) (map (Z.mul c) big) (map (Z.mul c) medium) =
+  (sbin c (fst (fst (tq_pick' cur big medium))),
+   map (Z.mul c) (snd (fst (tq_pick' cur big medium))),
+   map (Z.mul c) (snd (tq_pick' cur big medium))).
+Proof.
+  intros Hc. unfold tq_pick'. rewrite !firstn_map, !map_id, !zsum_scale, (geb_scale c _ _ Hc).
+  destruct (zsum (firstn 1 big) >=? zsum (firstn 2 medium)); cbn [fst snd];
+    rewrite fold_add_scale, skipn_map; reflexivity.
+Qed.
+
+Lemma tq_loop_scale c C : 0 < c -> forall fuel st big medium small,
+  tq_loop id true fuel (c * C) (sstate c st) (map (Z.mul c) big) (map (Z.mul c) medium) (map (Z.mul c) small) =
+  sstate c (tq_loop id true fuel C st big medium small).
+Proof.
+  intros Hc. induction fuel as [|f IH]; intros st big medium small; [reflexivity|].
+  rewrite !tq_loop_unfold', !is_nil'_map.
+  destruct (is_nil' small); [rewrite !(dec_sub_scale c C _ Hc); reflexivity|].
+  destruct (is_nil' big && is_nil' medium); [apply dec_sub_scale; exact Hc|].
+  rewrite sstate_snd, (tq_pick'_scale c _ _ _ Hc).
+  destruct (tq_pick' (snd st) big medium) as [[cur0 big'] medium']. cbn [fst snd].
+  rewrite map_length, (fill_small_scale c C Hc).
+  destruct (fill_small id true (length small) C cur0 small) as [cur1 small']. cbn [fst snd].
+  rewrite sbin_fst, (geb_scale c _ C Hc), sstate_fst.
+  destruct (fst cur1 >=? C).
+  - rewrite sstate_close. apply IH.
+  - rewrite sstate_keep. apply IH.
+Qed.
+
+Theorem cover_threequarters_scale : forall c C vs, 0 < c ->
+  cover_threequarters id true (c * C) (map (Z.mul c) vs) = scale_bins c (cover_threequarters id true C vs).
+Proof.
+  intros c C vs Hc. unfold cover_threequarters. cbv zeta.
+  rewrite map_length, (sort_desc_scale c vs Hc).
+  rewrite (filter_map_commute (Z.mul c) (is_big id C)) by (intros x; apply is_big_scale; exact Hc).
+  rewrite (filter_map_commute (Z.mul c) (is_medium id C)) by (intros x; apply is_medium_scale; exact Hc).
+  rewrite (filter_map_commute (Z.mul c) (is_small id C)) by (intros x; apply is_small_scale; exact Hc).
+  rewrite <- sstate_fst, <- (tq_loop_scale c C Hc), sstate_init. reflexivity.
+Qed.
+
+(** ================================================================== *)
+(** * PART 4: corollaries for exact algorithms                          *)
+(** ================================================================== *)
+
+(** all exact algorithms report the same optimal value *)
+Theorem exact_agree : forall o k vs v1 v2, Opt o k vs v1 -> Opt o k vs v2 -> v1 = v2.
+Proof. exact Opt_unique. Qed.
+
+(** no algorithm returning an attainable vector of sums is better than the optimum *)
+Theorem heuristic_ge_opt : forall o k vs v s, Opt o k vs v -> Attainable k vs s -> v <= value o s false.
+Proof. intros o k vs v s [_ Hmin] Hs. apply Hmin. exact Hs. Qed.
+
+Theorem greedy_ge_opt : forall o k vs v, (1 <= k)%nat -> Opt o k vs v ->
+  v <= value o (sums (greedy id true k vs)) false.
+Proof.
+  intros o k vs v Hk H. apply (heuristic_ge_opt o k vs v _ H).
+  pose proof (greedy_attainable id true k vs Hk) as G. rewrite map_id in G. exact G.
+Qed.
+
+Lemma dp_opt_id o k vs b : (1 <= k)%nat -> dp id true o k vs = Ok b -> Opt o k vs (value o (sums b) false).
+Proof.
+  intros Hk H. pose proof (dp_optimal id o k vs b Hk H) as G. rewrite map_id in G. exact G.
+Qed.
+
+Theorem dp_perm_value : forall o k vs1 vs2 b1 b2, Permutation vs1 vs2 ->
+  dp id true o k vs1 = Ok b1 -> dp id true o k vs2 = Ok b2 -> (1 <= k)%nat ->
+  value o (sums b1) false = value o (sums b2) false.
+Proof.
+  intros o k vs1 vs2 b1 b2 P H1 H2 Hk. apply (Opt_unique o k vs2).
+  - apply (Opt_perm o k vs1 vs2 _ P). apply dp_opt_id; assumption.
+  - apply dp_opt_id; assumption.
+Qed.
+
+Theorem dp_scale_value : forall o k vs c b1 b2, 0 < c ->
+  dp id true o k vs = Ok b1 -> dp id true o k (map (Z.mul c) vs) = Ok b2 -> (1 <= k)%nat ->
+  value o (sums b2) false = c * value o (sums b1) false.
+Proof.
+  intros o k vs c b1 b2 Hc H1 H2 Hk. apply (Opt_unique o k (map (Z.mul c) vs)).
+  - apply dp_opt_id; assumption.
+  - apply Opt_scale; [exact Hc|]. apply dp_opt_id; assumption.
+Qed.
+
+Theorem dp_zeros_value : forall o k vs vs' n b1 b2, Permutation vs' (vs ++ repeat 0 n) ->
+  dp id true o k vs = Ok b1 -> dp id true o k vs' = Ok b2 -> (1 <= k)%nat ->
+  value o (sums b1) false = value o (sums b2) false.
+Proof.
+  intros o k vs vs' n b1 b2 P H1 H2 Hk. apply (Opt_unique o k vs').
+  - apply (Opt_insert_zeros o k vs vs' _ n Hk P). apply dp_opt_id; assumption.
+  - apply dp_opt_id; assumption.
+Qed.
+
+(** any two algorithms with an optimality theorem of the shape of [dp_optimal] agree on the value,
+    on permuted, scaled or zero-padded inputs *)
+Theorem exact_agree_perm : forall o k vs vs' v v', Permutation vs vs' ->
+  Opt o k vs v -> Opt o k vs' v' -> v = v'.
+Proof. intros o k vs vs' v v' P H H'. apply (Opt_unique o k vs'); [apply (Opt_perm o k vs); assumption|exact H']. Qed.
+
+Theorem exact_agree_scale : forall o k vs c v v', 0 < c ->
+  Opt o k vs v -> Opt o k (map (Z.mul c) vs) v' -> v' = c * v.
+Proof. intros o k vs c v v' Hc H H'. apply (Opt_unique o k (map (Z.mul c) vs)); [exact H'|apply Opt_scale; assumption]. Qed.
+
+Theorem exact_agree_zeros : forall o k vs vs' n v v', (1 <= k)%nat -> Permutation vs' (vs ++ repeat 0 n) ->
+  Opt o k vs v -> Opt o k vs' v' -> v = v'.
+Proof.
+  intros o k vs vs' n v v' Hk P H H'. apply (Opt_unique o k vs'); [|exact H'].
+  apply (Opt_insert_zeros o k vs vs' v n Hk P). exact H.
+Qed.
+
+(** ---- the balanced two-way optimum (the specification met by CBLDM) has the same symmetries ---- *)
+Theorem OptBalanced_unique : forall d vs v v', OptBalanced d vs v -> OptBalanced d vs v' -> v = v'.
+Proof.
+  intros d vs v v' [(m & Hm & Hv) Hmin] [(m' & Hm' & Hv') Hmin'].
+  pose proof (Hmin m' Hm') as H1. pose proof (Hmin' m Hm) as H2. lia.
+Qed.
+
+Lemma side_sum_scale c vs : forall mask, side_sum (map (Z.mul c) vs) mask = c * side_sum vs mask.
+Proof.
+  induction vs as [|x t IH]; intros [|b m]; cbn [map side_sum]; try lia.
+  rewrite IH. destruct b; lia.
+Qed.
+
+Lemma split_diff_scale c vs mask : 0 < c -> split_diff (map (Z.mul c) vs) mask = c * split_diff vs mask.
+Proof.
+  intros Hc. unfold split_diff. rewrite side_sum_scale, zsum_scale.
+  replace (2 * (c * side_sum vs mask) - c * zsum vs) with (c * (2 * side_sum vs mask - zsum vs)) by lia.
+  rewrite Z.abs_mul, (Z.abs_eq c) by lia. reflexivity.
+Qed.
+
+Lemma balanced_split_scale c d vs mask : balanced_split d (map (Z.mul c) vs) mask <-> balanced_split d vs mask.
+Proof. unfold balanced_split. rewrite map_length. reflexivity. Qed.
+
+Theorem OptBalanced_scale : forall d vs v c, 0 < c -> OptBalanced d vs v -> OptBalanced d (map (Z.mul c) vs) (c * v).
+Proof.
+  intros d vs v c Hc [(m & Hm & Hv) Hmin]. split.
+  - exists m. split; [apply balanced_split_scale; exact Hm|]. rewrite (split_diff_scale c vs m Hc), Hv. reflexivity.
+  - intros m' Hm'. apply balanced_split_scale in Hm'. rewrite (split_diff_scale c vs m' Hc).
+    apply Z.mul_le_mono_nonneg_l; [lia|]. apply Hmin; exact Hm'.
+Qed.
+
+Lemma mask_perm vs vs' : Permutation vs vs' -> forall mask, length mask = length vs ->
+  exists mask', length mask' = length vs' /\ side_sum vs' mask' = side_sum vs mask /\
+                side_count mask' = side_count mask.
+Proof.
+  induction 1 as [|x l l' P IH|x y l|l1 l2 l3 P1 IH1 P2 IH2]; intros mask Hl.
+  - exists mask. auto.
+  - destruct mask as [|b m]; [discriminate Hl|]. cbn [length] in Hl.
+    destruct (IH m) as (m' & H1 & H2 & H3); [lia|].
+    exists (b :: m'). cbn [length side_sum side_count]. repeat split; lia.
+  - destruct mask as [|b1 [|b2 m]]; try discriminate Hl.
+    exists (b2 :: b1 :: m). cbn [length side_sum side_count] in *. repeat split; lia.
+  - destruct (IH1 mask Hl) as (m1 & H1 & H2 & H3). destruct (IH2 m1 H1) as (m2 & H4 & H5 & H6).
+    exists m2. repeat split; lia.
+Qed.
+
+Lemma balanced_perm d vs vs' mask : Permutation vs vs' -> balanced_split d vs mask ->
+  exists mask', balanced_split d vs' mask' /\ split_diff vs' mask' = split_diff vs mask.
+Proof.
+  intros P [Hl Hb]. destruct (mask_perm vs vs' P mask Hl) as (m' & H1 & H2 & H3).
+  exists m'. unfold balanced_split, split_diff.
+  rewrite H1, H2, H3, <- (Permutation_length P), <- (zsum_perm vs vs' P). auto.
+Qed.
+
+Theorem OptBalanced_perm : forall d vs vs' v, Permutation vs vs' -> OptBalanced d vs v -> OptBalanced d vs' v.
+Proof.
+  intros d vs vs' v P [(m & Hm & Hv) Hmin]. split.
+  - destruct (balanced_perm d vs vs' m P Hm) as (m' & H1 & H2). exists m'. split; [exact H1|lia].
+  - intros m' Hm'. destruct (balanced_perm d vs' vs m' (Permutation_sym P) Hm') as (m0 & H1 & H2).
+    rewrite <- H2. apply Hmin; exact H1.
+Qed.
+
+(** CBLDM on plain non-negative values: the reported difference is invariant under reordering and
+    scales with the input *)
+Lemma cbldm_opt_id vs d b t : Forall (fun v => 0 <= v) vs -> vs <> [] -> 1 <= d ->
+  cbldm id 2 vs true d true None = Ok (CbBins b, t) -> OptBalanced d vs (sum_diff b).
+Proof.
+  intros Hnn Hne Hd E. destruct (cbldm_optimal id vs d Hnn Hne Hd) as (b' & t' & E' & _ & _ & Hopt).
+  rewrite E in E'. injection E' as Eb _. subst b'. rewrite map_id in Hopt. exact Hopt.
+Qed.
+
+Theorem cbldm_perm_value : forall vs1 vs2 d b1 t1 b2 t2, Permutation vs1 vs2 ->
+  Forall (fun v => 0 <= v) vs1 -> vs1 <> [] -> 1 <= d ->
+  cbldm id 2 vs1 true d true None = Ok (CbBins b1, t1) ->
+  cbldm id 2 vs2 true d true None = Ok (CbBins b2, t2) ->
+  sum_diff b1 = sum_diff b2.
+Proof.
+  intros vs1 vs2 d b1 t1 b2 t2 P Hnn Hne Hd E1 E2. apply (OptBalanced_unique d vs2).
+  - apply (OptBalanced_perm d vs1 vs2 _ P). apply (cbldm_opt_id vs1 d b1 t1); assumption.
+  - apply (cbldm_opt_id vs2 d b2 t2); try assumption.
+    + eapply Permutation_Forall; [exact P|exact Hnn].
+    + intros ->. apply Permutation_sym, Permutation_nil in P. contradiction.
+Qed.
+
+Theorem cbldm_scale_value : forall vs c d b1 t1 b2 t2, 0 < c ->
+  Forall (fun v => 0 <= v) vs -> vs <> [] -> 1 <= d ->
+  cbldm id 2 vs true d true None = Ok (CbBins b1, t1) ->
+  cbldm id 2 (map (Z.mul c) vs) true d true None = Ok (CbBins b2, t2) ->
+  sum_diff b2 = c * sum_diff b1.
+Proof.
+  intros vs c d b1 t1 b2 t2 Hc Hnn Hne Hd E1 E2. apply (OptBalanced_unique d (map (Z.mul c) vs)).
+  - apply (cbldm_opt_id _ d b2 t2); try assumption.
+    + rewrite Forall_map. eapply Forall_impl; [|exact Hnn]. intros v Hv. cbn beta in Hv |- *.
+      apply Z.mul_nonneg_nonneg; lia.
+    + destruct vs; [contradiction|discriminate].
+  - apply OptBalanced_scale; [exact Hc|]. apply (cbldm_opt_id vs d b1 t1); assumption.
+Qed.
+
+(** ================================================================== *)
+(** * Witnesses                                                         *)
+(** ================================================================== *)
+
+(** best fit: the unscaled initial best value -1 is harmless even with negative values *)
+Example best_fit_scale_negative_values :
+  best_fit id true 10 [4; -5; 6; 7; -8; 2] = Ok [(4, [4; 6; -8; 2]); (2, [-5; 7])] /\
+  best_fit id true 30 (map (Z.mul 3) [4; -5; 6; 7; -8; 2]) = Ok [(12, [12; 18; -24; 6]); (6, [-15; 21])].
+Proof. vm_compute. split; reflexivity. Qed.
+
+(** an over-sized value is refused before and after scaling *)
+Example first_fit_scale_error :
+  first_fit id true 10 [4; 11] = Err ValueError /\
+  first_fit id true (3 * 10) (map (Z.mul 3) [4; 11]) = Err ValueError.
+Proof. vm_compute. split; reflexivity. Qed.
+
+(** [0 < c] is needed: a negative factor reverses every comparison *)
+Example greedy_scale_needs_positive :
+  greedy id true 2 (map (Z.mul (-1)) [1; 2; 3]) = [(-6, [-1; -2; -3]); (0, [])] /\
+  scale_bins (-1) (greedy id true 2 [1; 2; 3]) = [(-3, [-3]); (-3, [-2; -1])].
+Proof. vm_compute. split; reflexivity. Qed.
+
+Example scaling_examples :
+  kk id true 3 (map (Z.mul 3) [4; 5; 6; 7; 8]) = rmap (scale_bins 3) (kk id true 3 [4; 5; 6; 7; 8]) /\
+  cover_threequarters id true (3 * 10) (map (Z.mul 3) [4; 5; 6; 7; 8; 1; 2; 3; 2; 1]) =
+    [(30, [24; 3; 3]); (33, [21; 6; 6]); (42, [18; 9; 15])] /\
+  cover_threequarters id true 10 [4; 5; 6; 7; 8; 1; 2; 3; 2; 1] =
+    [(10, [8; 1; 1]); (11, [7; 2; 2]); (14, [6; 3; 5])] /\
+  greedy id true 3 [8; 4; 6; 5; 7] = greedy id true 3 [4; 5; 6; 7; 8].
+Proof. vm_compute. repeat split; reflexivity. Qed.
+
+Print Assumptions sort_desc_perm_eq.
+Print Assumptions greedy_perm.
+Print Assumptions roundrobin_perm.
+Print Assumptions first_fit_decreasing_perm.
+Print Assumptions best_fit_decreasing_perm.
+Print Assumptions cover_decreasing_perm.
+Print Assumptions cover_twothirds_perm.
+Print Assumptions cover_threequarters_perm.
+Print Assumptions kk_perm.
+Print Assumptions greedy_scale.
+Print Assumptions roundrobin_scale.
+Print Assumptions first_fit_scale.
+Print Assumptions first_fit_decreasing_scale.
+Print Assumptions best_fit_scale.
+Print Assumptions best_fit_decreasing_scale.
+Print Assumptions cover_decreasing_scale.
+Print Assumptions cover_twothirds_scale.
+Print Assumptions cover_threequarters_scale.
+Print Assumptions kk_scale.
+Print Assumptions value_scale.
+Print Assumptions Opt_perm.
+Print Assumptions Opt_scale.
+Print Assumptions Opt_zeros.
+Print Assumptions Opt_zeros_inv.
+Print Assumptions Opt_insert_zeros.
+Print Assumptions Opt_unique.
+Print Assumptions exact_agree.
+Print Assumptions heuristic_ge_opt.
+Print Assumptions greedy_ge_opt.
+Print Assumptions dp_perm_value.
+Print Assumptions dp_scale_value.
+Print Assumptions dp_zeros_value.
+Print Assumptions exact_agree_perm.
+Print Assumptions exact_agree_scale.
+Print Assumptions exact_agree_zeros.
+Print Assumptions OptBalanced_unique.
+Print Assumptions OptBalanced_scale.
+Print Assumptions OptBalanced_perm.
+Print Assumptions cbldm_perm_value.
+Print Assumptions cbldm_scale_value.
